@@ -21,6 +21,7 @@ use verif_harness::util::*;
 const IMPORT_ALL: &str = "import \"pe\" import \"elf\" import \"macho\" import \"dotnet\" import \"lnk\" import \"dex\" import \"crx\" import \"olecf\" import \"msi\" import \"vba\" import \"zip\" import \"hash\" import \"math\"\nrule always { condition: true }\nrule pe_ep { condition: pe.is_pe and pe.entry_point >= 0 }\nrule elf_n { condition: elf.number_of_sections >= 0 }\nrule zip_n { condition: zip.is_zip and for any e in zip.entries : (e.uncompressed_size >= 0) }\n";
 
 fn rss_kb() -> u64 { std::fs::read_to_string("/proc/self/statm").ok().and_then(|s| s.split(' ').nth(1).and_then(|x| x.parse::<u64>().ok())).map_or(0, |p| p * 4) }
+fn hwm_kb() -> u64 { std::fs::read_to_string("/proc/self/status").ok().and_then(|s| s.lines().find(|l| l.starts_with("VmHWM:")).and_then(|l| l.split_whitespace().nth(1).and_then(|x| x.parse().ok()))).unwrap_or(0) }
 fn fnv64(b: &[u8]) -> u64 { let mut h = 0xcbf29ce484222325u64; for x in b { h ^= *x as u64; h = h.wrapping_mul(0x100000001b3); } h }
 
 // ---------------------------------------------------------------- child
@@ -48,13 +49,15 @@ fn child() -> i32 {
         let r = catch(AssertUnwindSafe(|| {
             let a = yara_x::mods::invoke_all(&data);
             let t_first = t0.elapsed();
-            let rss_grow = rss_kb().saturating_sub(rss0);
+            // peak resident memory reached during the call, over what was resident before it
+            // (the parent replaces a child whose peak is already high, so an earlier peak does not mask this one)
+            let rss_grow = hwm_kb().max(rss_kb()).saturating_sub(rss0);
             // no Debug rendering of the message: it is several times larger than the message itself
             struct Da; impl Da { fn len(&self) -> usize { 0 } }
             let da = Da;
             // hopelessly over the time bound already: do not repeat the call four more times
-            if t_first.as_micros() > 4_000_000 + 60 * data.len() as u128 {
-                return (true, true, true, da.len() as u64, da.len(), t_first, String::new(), "skipped-after-slow-first-call".to_string(), rss_grow);
+            if t_first.as_micros() > 4_000_000 + 60 * data.len() as u128 || rss_grow > 256 * 1024 + (256 * data.len() as u64) / 1024 {
+                return (true, true, true, da.len() as u64, da.len(), t_first, String::new(), "skipped-after-slow-or-large-first-call".to_string(), rss_grow);
             }
             let b = yara_x::mods::invoke_all(&data);
             let same2 = *a == *b; // PartialEq: map fields compare as maps (their Debug order is per-instance)
@@ -330,6 +333,7 @@ fn run_one(kid: &mut Option<Kid>, idx: usize, data: &[u8], limit: Duration) -> R
                     if f[0] == "ok" { r.status = "ok".into(); r.same2 = f[1] == "1"; r.same3 = f[2] == "1"; r.scan_ok = f[3] == "1";
                         r.t_first_us = f[4].parse().unwrap_or(0); r.t_all_us = f[5].parse().unwrap_or(0); r.hash = f[6].parse().unwrap_or(0); r.detail = f.get(8).unwrap_or(&"").to_string(); r.rss_kb = f.get(9).and_then(|x| x.parse().ok()).unwrap_or(0); }
                     else { r.status = "panic".into(); r.detail = f[1..].join(" "); }
+                    if r.rss_kb > 128 * 1024 { drop(k.child.stdin.take()); let _ = k.child.wait(); *kid = None; }
                     return r;
                 }
             }
